@@ -2,12 +2,13 @@ SPECIFICATION Spec
 CONSTANTS
   Sids <- SidsC
   ModelSessions = {1, 2}
-  Classes <- Classes12
+  Classes <- Classes16
   Cfgs <- CfgsC
   ProbeLens <- Lens1235
   Dev_MaskBit7 = FALSE
   Dev_ShortLens = FALSE
   Dev_BreakOnLenErr = FALSE
+  Dev_BreakOnTimeout = FALSE
   Dev_CheckDoesNotRestore = FALSE
 INVARIANT TypeOK
 INVARIANT M0_Model
